@@ -14,7 +14,7 @@ import shutil
 
 CRASH_EXIT = 77
 
-KINDS_OPEN = ("crash_before", "crash_after_create", "crash_mid_write", "err_open", "err_write")
+KINDS_OPEN = ("crash_before", "crash_after_create", "crash_mid_write", "crash_cut_tail1", "crash_cut_tail8", "err_open", "err_write")
 KINDS_OTHER = ("crash_before", "err_op")
 KINDS_READ = ("err_open",)  # a crash before a read leaves the same disk state as a crash before the next mutation
 
@@ -33,12 +33,14 @@ class _WProxy:
         if self._first:
             self._first = False
             kind = self._fs.plan.get(self._idx)
-            if kind in ("crash_mid_write", "err_write"):
+            if kind in ("crash_mid_write", "err_write", "crash_cut_tail1", "crash_cut_tail8"):
                 self._fs.fired.add(self._idx)
                 half = data[: (len(data) + 1) // 2]
+                if kind.startswith("crash_cut_tail"):  # everything but the last 1 / 8 bytes reached the disk
+                    half = data[: max(0, len(data) - int(kind[len("crash_cut_tail"):]))]
                 self._real.write(half)
                 self._real.flush()
-                if kind == "crash_mid_write":
+                if kind.startswith("crash"):
                     os._exit(CRASH_EXIT)
                 raise OSError(errno.ENOSPC, "No space left on device (injected)")
         return self._real.write(data)
@@ -86,7 +88,7 @@ class FaultFS:
             self.plan[idx] = self.match[2]
             self.match = None
         f = self.plan.get(idx)
-        if f is not None and f not in ("crash_mid_write", "err_write"):
+        if f is not None and f not in ("crash_mid_write", "err_write", "crash_cut_tail1", "crash_cut_tail8"):
             self.fired.add(idx)
         if f == "crash_before":
             os._exit(CRASH_EXIT)
